@@ -9,7 +9,7 @@ from dataclasses import asdict, dataclass
 from pathlib import Path
 from typing import TYPE_CHECKING, Any
 
-from pipefunc._utils import at_least_tuple, dump, equal_dicts, load
+from pipefunc._utils import at_least_tuple, atomic_write, dump, equal_dicts, load
 from pipefunc._version import __version__
 
 from ._mapspec import MapSpec
@@ -162,7 +162,7 @@ class RunInfo:
             data[key] = {_maybe_tuple_to_str(k): v for k, v in data[key].items()}
         data["run_folder"] = str(data["run_folder"])
         data["defaults_path"] = str(self.defaults_path)
-        with path.open("w") as f:
+        with atomic_write(path, "w") as f:
             json.dump(data, f, indent=4)
 
     @classmethod
